@@ -13,13 +13,18 @@
   Models: QKV.Model.QNoise (mixing expressions, storage state machine), QKV.Model.Sched
   (QNoiseScheduler).  Inputs, factors, list lengths and histories are unbounded.
 
-  Where the code does not satisfy the property the provable part is `…_partial` and the failing
-  corner is a `…_counterexample` (each reproduced on the real code by the harness):
-    * `update_qnoise_factor(tf.Variable)` on a python-float factor raises (eager mode);
-    * `on_train_begin` raises on a model holding a `quantized_linear` (read-only `use_variables`);
-    * `get_quantizers` looks only at `layer.quantizers` / `layer.quantizer`: activation quantizers
-      of QDense/QConv*, the cell quantizers of recurrent layers and quantizers of nested models
-      keep their constructor factor.
+  Fix round (known/C07.json `fixed`): the five recorded defects were repaired in qkeras and the
+  model follows the repaired code, so the former `…_partial` / `…_counterexample` pairs are now
+  full theorems plus regression witnesses (`…_fixed_witness`, the model evaluated at the old
+  failing input):
+    * `update_qnoise_factor(tf.Variable)` on a python-float factor (raised under eager mode):
+      `C07_storage_never_raises`, `C07_update_from_variable`, `…_fixed_witness`;
+    * `on_train_begin` on a model holding a `quantized_linear` (read-only `use_variables`):
+      `C07_sched_no_raise`, `C07_sched_all_quantizers` without a hypothesis on the quantizer kinds,
+      `C07_sched_linear_fixed_witness`;
+    * `get_quantizers` missing activation quantizers of QDense/QConv*, the cell quantizers of
+      recurrent layers and quantizers of nested models: `C07_get_quantizers_covers` over the
+      recursive layer structure, `C07_get_quantizers_{activation,cell,nested}_fixed_witness`.
 -/
 import QKV.Lemmas.Sched
 import QKV.Lemmas.Rnd
@@ -104,38 +109,37 @@ example (v : ℚ) : Rnd.exact.r32 (Rnd.exact.r64 (1 - v)) = Rnd.exact.r32 (1 - R
 
 /-! ## 2. storage of the factor: python float vs tf.Variable, build / update in any order -/
 
-/-- For every operation list (explicit `build(use_variables=…)`, `update_qnoise_factor`, flipping
-    `use_variables`, calls) in which no operation raised: the factor the next call uses is the
-    float32 of the last value written through the update API, or the initial one if none was. -/
+/-- For every operation list (explicit `build(use_variables=…)`, `update_qnoise_factor` with a
+    number or with a `tf.Variable`, flipping `use_variables`, calls): the factor the next call uses is
+    the float32 of the last value written through the update API, or the initial one if none was. -/
 theorem C07_storage_invariant (rd : Rnd) (s : QState) (ops : List Op)
-    (hwf : ∀ op ∈ ops, Op.WF rd op) (hnr : QState.anyRaise rd s ops = false) :
+    (hwf : ∀ op ∈ ops, Op.WF rd op) :
     (QState.run rd s ops).eff rd =
       match lastWrite ops with
       | some v => rd.r32 v
       | none => s.eff rd :=
-  storage_invariant rd ops s hwf hnr
+  storage_invariant rd ops s hwf
 
-/-- an operation that raises leaves the quantizer as it was -/
-theorem C07_storage_raise_unchanged (rd : Rnd) (s : QState) (op : Op)
-    (h : (s.step rd op).2 = true) : (s.step rd op).1 = s :=
-  step_raise_unchanged rd s op h
+/-- no operation of the build / update API raises, in any state, in any order -/
+theorem C07_storage_never_raises (rd : Rnd) (s : QState) (ops : List Op) :
+    (∀ op, (s.step rd op).2 = false) ∧ QState.anyRaise rd s ops = false :=
+  ⟨step_no_raise rd s, anyRaise_false rd ops s⟩
 
-/-- only `update_qnoise_factor(<tf.Variable>)` on a python-float factor raises -/
-theorem C07_storage_raise_iff (rd : Rnd) (s : QState) (op : Op) :
-    (s.step rd op).2 = true ↔ (∃ v, op = .updateFromVar v) ∧ s.store.isVar = false := by
-  cases op <;> simp [QState.step]
-  unfold QState.updateFromVar
-  cases s.store <;> simp [Store.isVar]
+/-- `update_qnoise_factor(<tf.Variable holding v>)` applies `v` whatever the storage is -/
+theorem C07_update_from_variable (rd : Rnd) (s : QState) (v : ℚ) (hv : rd.r32 v = v) :
+    (s.step rd (.updateFromVar v)).2 = false ∧ ((s.step rd (.updateFromVar v)).1).eff rd = v := by
+  refine ⟨step_no_raise rd s _, ?_⟩
+  have h := eff_step rd s (.updateFromVar v) hv
+  simpa [lastWrite, hv] using h
 
 /-- constructor constant vs update API: a quantizer constructed with factor `v` and then put
     through any build/call operations uses the same factor as any quantizer whose last update
     wrote `v`, whatever happened before and after it and whichever storage either is in. -/
 theorem C07_ctor_equals_update (rd : Rnd) (v : ℚ) (s1 s2 : QState) (ops1 ops2 : List Op)
     (h1 : s1.store = .py v) (hl1 : lastWrite ops1 = none) (hl2 : lastWrite ops2 = some v)
-    (hwf1 : ∀ op ∈ ops1, Op.WF rd op) (hwf2 : ∀ op ∈ ops2, Op.WF rd op)
-    (hnr1 : QState.anyRaise rd s1 ops1 = false) (hnr2 : QState.anyRaise rd s2 ops2 = false) :
+    (hwf1 : ∀ op ∈ ops1, Op.WF rd op) (hwf2 : ∀ op ∈ ops2, Op.WF rd op) :
     (QState.run rd s1 ops1).eff rd = (QState.run rd s2 ops2).eff rd := by
-  rw [storage_invariant rd ops1 s1 hwf1 hnr1, storage_invariant rd ops2 s2 hwf2 hnr2, hl1, hl2]
+  rw [storage_invariant rd ops1 s1 hwf1, storage_invariant rd ops2 s2 hwf2, hl1, hl2]
   simp [QState.eff, h1, Store.asF]
 
 /-- build-before-update and update-before-build give the same factor -/
@@ -144,24 +148,21 @@ theorem C07_storage_build_order (rd : Rnd) (s : QState) (b : Bool) (v : ℚ) :
     (QState.run rd s [.update v, .build b, .call]).eff rd = rd.r32 v := by
   constructor <;> simp [QState.run, QState.step]
 
-/-- non-vacuity of the hypotheses of `C07_storage_invariant` on a mixed list -/
-example : (∀ op ∈ [Op.setUseVars true, .update (1/4), .call, .updateFromVar (1/2), .build false],
-            Op.WF Rnd.exact op) ∧
-    QState.anyRaise Rnd.exact ⟨.py 1, false, false⟩
-      [Op.setUseVars true, .update (1/4), .call, .updateFromVar (1/2), .build false] = false := by
-  constructor
-  · intro op hop; cases op <;> simp [Op.WF, Rnd.exact]
-  · simp [QState.anyRaise, QState.step, QState.call, QState.build, QState.update, QState.updateFromVar,
-      Store.asF, Rnd.exact]
+/-- non-vacuity of the hypothesis of `C07_storage_invariant` on a mixed list -/
+example : ∀ op ∈ [Op.setUseVars true, .update (1/4), .call, .updateFromVar (1/2), .build false],
+            Op.WF Rnd.exact op := by
+  intro op hop; cases op <;> simp [Op.WF, Rnd.exact]
 
-/-- the update API given a `tf.Variable` while the factor is still a python float raises and the
-    value is not applied (TF2 eager: `Variable.eval()` is not supported) -/
-theorem C07_update_from_variable_counterexample :
-    ∃ (s : QState) (v : ℚ), (s.step Rnd.exact (.updateFromVar v)).2 = true ∧
-      ((s.step Rnd.exact (.updateFromVar v)).1).eff Rnd.exact ≠ v := by
-  refine ⟨⟨.py 1, false, false⟩, 1/2, ?_, ?_⟩
-  · simp [QState.step, QState.updateFromVar]
-  · simp [QState.step, QState.updateFromVar, QState.eff, Store.asF, Rnd.exact]
+/-- regression witness of the former finding C07-update-from-variable: the update API given a
+    `tf.Variable` while the factor is still a python float (it used to raise under TF2 eager
+    execution, leaving the factor at 1) does not raise and the next call uses the new value -/
+theorem C07_update_from_variable_fixed_witness :
+    let s : QState := ⟨.py 1, false, false⟩
+    (s.step Rnd.exact (.updateFromVar (1/2))).2 = false ∧
+      ((s.step Rnd.exact (.updateFromVar (1/2))).1).eff Rnd.exact = 1/2 ∧
+      (QState.run Rnd.exact s [.updateFromVar (1/2), .call]).eff Rnd.exact = 1/2 := by
+  simp [QState.step, QState.updateFromVar, QState.eff, Store.asF, Rnd.exact, QState.run, QState.call,
+    QState.build]
 
 /-! ## 3. calculate_qnoise_factor -/
 
@@ -358,79 +359,190 @@ theorem C07_sched_num_iters (c : Cfg) (n : Num) (layers : List Layer) (es : List
     (run c n layers s es).numIters = s.numIters + ((es.filter (Event.ticks c)).length : ℤ) :=
   run_numIters c n layers es s hnr
 
-/-- Models whose knob-bearing quantizers (as found by `get_quantizers`) are all of the standard
-    kind: after EVERY event history all tracked quantizers hold the float32 of the factor the
-    callback applied last, and the callback's own `qnoise_factor` is that factor. -/
-theorem C07_sched_all_quantizers_partial (c : Cfg) (n : Num) (layers : List Layer)
-    (hstd : ∀ q ∈ getQuantizers layers, q.kind = .std) (es : List Event) (qs : List QObj)
-    (hq : (run c n layers CB.init es).quantizers = some qs) (hne : qs ≠ []) :
-    ∃ v, (run c n layers CB.init es).trace.getLast? = some v ∧
-      (run c n layers CB.init es).factor = some v ∧ ∀ q ∈ qs, q.st.eff n.rd = n.rd.r32 v := by
-  have h := sameInv_run c n layers hstd es CB.init (sameInv_init n.rd)
+/-- EVERY model, EVERY event history: whenever the callback tracks quantizers, all of them hold the
+    float32 of the factor the callback applied last, the callback's own `qnoise_factor` is that
+    factor, and the tracked objects are (by identity, in order) the ones `get_quantizers` returns. -/
+theorem C07_sched_all_tracked (c : Cfg) (n : Num) (layers : List Layer) (es : List Event)
+    (qs : List QObj) (hq : (run c n layers CB.init es).quantizers = some qs) :
+    qs.map QObj.tag = (getQuantizers layers).map QObj.tag ∧
+    (qs ≠ [] → ∃ v, (run c n layers CB.init es).trace.getLast? = some v ∧
+      (run c n layers CB.init es).factor = some v ∧ ∀ q ∈ qs, q.st.eff n.rd = n.rd.r32 v) := by
+  have h := sameInv_run c n layers es CB.init (sameInv_init n.rd)
+  have ht := tagInv_run c n layers es CB.init (tagInv_init layers)
   unfold SameInv at h
   rw [hq] at h
-  exact h.2.2 hne
+  exact ⟨ht qs hq, h.2⟩
 
-/-- … and for such models no hook raises once `on_train_begin` came first (Keras' order) -/
-theorem C07_sched_no_raise (c : Cfg) (n : Num) (layers : List Layer)
-    (hstd : ∀ q ∈ getQuantizers layers, q.kind = .std) (es : List Event) :
+/-- no hook raises once `on_train_begin` came first (Keras' order) — every model, every history -/
+theorem C07_sched_no_raise (c : Cfg) (n : Num) (layers : List Layer) (es : List Event) :
     anyRaise c n layers CB.init (.trainBegin :: es) = false := by
-  have h := step_no_raise c n layers hstd CB.init .trainBegin (Or.inr rfl)
+  have h := step_no_raise c n layers CB.init .trainBegin (Or.inr rfl)
   simp only [anyRaise, h.1, Bool.false_or]
-  exact run_no_raise c n layers hstd es _ h.2
+  exact run_no_raise c n layers es _ h.2
 
-/-- `on_train_begin` on a model holding a `quantized_linear` raises (AttributeError: read-only
-    `use_variables`) and the quantizer keeps its constructor factor 1 instead of the initial 0. -/
-theorem C07_sched_linear_counterexample :
+/-- The property's last clause in full.  Take ANY model (layers with `quantizers` / `quantizer` /
+    `get_quantizers()` / `activation` / `recurrent_activation` holders, holding cells, wrapped layers
+    and nested models to any depth), ANY quantizer object `q` with the knob that the model holds
+    anywhere (`ModelHolds`, defined without reference to the walk), and ANY history Keras can produce
+    (`on_train_begin` first, then any interleaving of hooks and forward passes).  Then the callback
+    tracks `q` (an entry with `q`'s identity), and every tracked quantizer — that entry included —
+    holds the float32 of the factor applied last, which is also the callback's `qnoise_factor`. -/
+theorem C07_sched_all_quantizers (c : Cfg) (n : Num) (layers : List Layer) (es : List Event)
+    (q : QObj) (hq : ModelHolds layers q) (hk : q.hasKnob = true) :
+    ∃ qs v, (run c n layers CB.init (.trainBegin :: es)).quantizers = some qs ∧
+      (run c n layers CB.init (.trainBegin :: es)).trace.getLast? = some v ∧
+      (run c n layers CB.init (.trainBegin :: es)).factor = some v ∧
+      (∀ p ∈ qs, p.st.eff n.rd = n.rd.r32 v) ∧
+      ∃ q' ∈ qs, q'.tag = q.tag ∧ q'.st.eff n.rd = n.rd.r32 v := by
+  have hsome : (run c n layers CB.init (.trainBegin :: es)).quantizers.isSome = true := by
+    simp only [run]
+    exact run_isSome c n layers es _ (step_no_raise c n layers CB.init .trainBegin (Or.inr rfl)).2
+  obtain ⟨qs, hqs⟩ := Option.isSome_iff_exists.1 hsome
+  obtain ⟨ht, hv⟩ := C07_sched_all_tracked c n layers (.trainBegin :: es) qs hqs
+  obtain ⟨q0, hq0, hq0t⟩ : ∃ q0 ∈ getQuantizers layers, q0.tag = q.tag := by
+    rw [getQuantizers_eq]
+    exact foldl_addQ_cover _ [] q ((mem_preList_iff layers q).2 hq) hk
+  have hmem : q.tag ∈ qs.map QObj.tag := by
+    rw [ht]; exact List.mem_map.2 ⟨q0, hq0, hq0t⟩
+  obtain ⟨q', hq', hq't⟩ := List.mem_map.1 hmem
+  obtain ⟨v, h1, h2, h3⟩ := hv (List.ne_nil_of_mem hq')
+  exact ⟨qs, v, hqs, h1, h2, h3, q', hq', hq't, h3 q' hq'⟩
+
+/-- non-vacuity: a QDense-like layer whose activation is a knob-bearing quantizer -/
+example : ModelHolds [Layer.mk ⟨some [], none, none, some ⟨2, .std, true, ⟨.py 1, false, false⟩⟩, none⟩ []]
+    ⟨2, .std, true, ⟨.py 1, false, false⟩⟩ :=
+  ⟨_, List.mem_singleton.2 rfl, .own (by simp [Layer.attrs, Attrs.held])⟩
+
+/-- regression witness of the former finding C07-sched-quantized-linear: `on_train_begin` on a model
+    holding a `quantized_linear` constructed with `use_variables=False` (it used to raise
+    AttributeError and leave the quantizer at its constructor factor 1) does not raise, turns
+    `use_variables` on and sets the initial factor 0; the first scheduled update reaches it. -/
+theorem C07_sched_linear_fixed_witness :
     let q : QObj := ⟨0, .linear, false, ⟨.py 1, false, false⟩⟩
-    let layers : List Layer := [⟨none, some q, []⟩]
+    let layers : List Layer := [.mk ⟨none, some q, none, none, none⟩ []]
     let c : Cfg := ⟨0, 4, false, 1, 0, true⟩
     let n : Num := ⟨fun r => r ^ 3, Rnd.exact⟩
-    (step c n layers CB.init .trainBegin).2 = true ∧
-    (step c n layers CB.init .trainBegin).1.quantizers = some [q] ∧
-    (step c n layers CB.init .trainBegin).1.factor = none := by
-  simp [step, emptyish, CB.init, getQuantizers, layerQuantizers, QObj.hasKnob, setAll, setOne]
+    (step c n layers CB.init .trainBegin).2 = false ∧
+    (step c n layers CB.init .trainBegin).1.quantizers =
+      some [⟨0, .linear, false, ⟨.py 0, false, true⟩⟩] ∧
+    (step c n layers CB.init .trainBegin).1.factor = some 0 ∧
+    ((run c n layers CB.init [.trainBegin, .forward, .epochBegin, .epochBegin]).quantizers.map
+      fun qs => qs.map fun p => p.st.eff n.rd) = some [1 - (3/4 : ℚ) ^ 3] := by
+  refine ⟨?_, ?_, ?_, ?_⟩ <;>
+    simp [run, step, emptyish, CB.init, getQuantizers, addLayers, addLayer, Attrs.held, addQ,
+      QObj.hasKnob, setAll, setOne, QState.update, QState.build, QState.call, QState.eff, Store.asF,
+      Store.isVar, updateStep, updateAll, calcF, Rnd.exact, Int.fmod]
 
 /-! ## 5. get_quantizers -/
 
-/-- `get_quantizers` returns exactly the knob-bearing objects held in `layer.quantizers` /
-    `layer.quantizer`, in layer order then attribute order then list order -/
-theorem C07_get_quantizers_exact (layers : List Layer) :
-    getQuantizers layers = (layers.flatMap Layer.held).filter QObj.hasKnob :=
-  getQuantizers_eq_filter layers
+/-- the walk is "append if knob-bearing and not yet listed" folded over the pre-order of the model,
+    and the pre-order lists exactly the quantizer objects the model holds -/
+theorem C07_get_quantizers_walk (layers : List Layer) :
+    getQuantizers layers = (preList layers).foldl addQ [] ∧
+    ∀ q, q ∈ preList layers ↔ ModelHolds layers q :=
+  ⟨getQuantizers_eq layers, mem_preList_iff layers⟩
 
-theorem C07_get_quantizers_mem (layers : List Layer) (q : QObj) :
-    q ∈ getQuantizers layers ↔ q.hasKnob = true ∧ ∃ l ∈ layers, q ∈ l.held := by
-  rw [getQuantizers_eq_filter]
-  simp only [List.mem_filter, List.mem_flatMap]
-  tauto
+/-- soundness: what is returned has the knob and is held by the model -/
+theorem C07_get_quantizers_mem (layers : List Layer) (q : QObj) (h : q ∈ getQuantizers layers) :
+    q.hasKnob = true ∧ ModelHolds layers q := by
+  refine ⟨getQuantizers_knob layers q h, ?_⟩
+  rw [← mem_preList_iff]
+  rw [getQuantizers_eq] at h
+  obtain ⟨r, hr, hs, _⟩ := foldl_addQ_shape (preList layers) []
+  rw [hr] at h
+  exact hs.subset (by simpa using h)
 
+/-- completeness: EVERY knob-bearing quantizer object the model holds — in `layer.quantizers`,
+    `layer.quantizer`, `layer.get_quantizers()`, `layer.activation`, `layer.recurrent_activation`, of
+    a top-level layer, of a cell, of a wrapped layer or of a layer of a nested model, at any depth —
+    is returned (an entry with its identity) -/
+theorem C07_get_quantizers_covers (layers : List Layer) (q : QObj) (hq : ModelHolds layers q)
+    (hk : q.hasKnob = true) : ∃ q' ∈ getQuantizers layers, q'.tag = q.tag := by
+  rw [getQuantizers_eq]
+  exact foldl_addQ_cover _ [] q ((mem_preList_iff layers q).2 hq) hk
+
+/-- … the object itself, for well-formed models (equal identity ⇒ equal object) -/
+theorem C07_get_quantizers_covers_obj (layers : List Layer)
+    (hwf : ∀ a b, ModelHolds layers a → ModelHolds layers b → a.tag = b.tag → a = b)
+    (q : QObj) (hq : ModelHolds layers q) (hk : q.hasKnob = true) : q ∈ getQuantizers layers := by
+  obtain ⟨q', hq', ht⟩ := C07_get_quantizers_covers layers q hq hk
+  have := hwf q' q (C07_get_quantizers_mem layers q' hq').2 hq ht
+  rwa [this] at hq'
+
+/-- each object once -/
+theorem C07_get_quantizers_once (layers : List Layer) :
+    ((getQuantizers layers).map QObj.tag).Nodup := by
+  rw [getQuantizers_eq]
+  exact foldl_addQ_nodup _ [] (by simp)
+
+/-- discovery order: a sub-sequence of the pre-order (layer order; per layer `quantizers`,
+    `quantizer`, `get_quantizers()`, `activation`, `recurrent_activation`, then the held layers) -/
 theorem C07_get_quantizers_order (layers : List Layer) :
-    (getQuantizers layers).Sublist (layers.flatMap Layer.held) := by
-  rw [getQuantizers_eq_filter]; exact List.filter_sublist
+    (getQuantizers layers).Sublist (preList layers) := by
+  rw [getQuantizers_eq]
+  obtain ⟨r, hr, hs, _⟩ := foldl_addQ_shape (preList layers) []
+  rw [hr]; simpa using hs
 
-/-- every knob-bearing quantizer of the model is found, PROVIDED no layer holds one outside the
-    two attributes -/
-theorem C07_get_quantizers_covers_partial (layers : List Layer)
-    (hh : ∀ l ∈ layers, ∀ q ∈ l.hidden, q.hasKnob = false) :
-    ∀ l ∈ layers, ∀ q ∈ l.all, q.hasKnob = true → q ∈ getQuantizers layers := by
-  intro l hl q hq hk
-  rw [C07_get_quantizers_mem]
-  refine ⟨hk, l, hl, ?_⟩
-  simp only [Layer.all, List.mem_append] at hq
-  rcases hq with hq | hq
-  · exact hq
-  · rw [hh l hl q hq] at hk; cases hk
+/-- without aliasing (no object reached twice) the result is exactly the knob-bearing filter of the
+    pre-order — in particular on the models the unrepaired code handled (flat, `quantizers` /
+    `quantizer` only) the result and its order are unchanged (`C07_get_quantizers_flat`) -/
+theorem C07_get_quantizers_exact (layers : List Layer)
+    (hn : ((preList layers).map QObj.tag).Nodup) :
+    getQuantizers layers = (preList layers).filter QObj.hasKnob := by
+  rw [getQuantizers_eq, foldl_addQ_noalias _ [] (by simp) hn]
+  simp
 
-/-- a QDense-like layer (`quantizers = [kernel, bias]`, activation quantizer held elsewhere):
-    the activation quantizer has the knob and is not returned, so the scheduler never updates it -/
-theorem C07_get_quantizers_covers_counterexample :
+theorem C07_get_quantizers_flat (layers : List Layer)
+    (hflat : ∀ l ∈ layers, l.sub = [] ∧ l.attrs.api = none ∧ l.attrs.activation = none ∧
+      l.attrs.recurrentActivation = none)
+    (hn : ((preList layers).map QObj.tag).Nodup) :
+    getQuantizers layers = getQuantizersOld layers := by
+  rw [C07_get_quantizers_exact layers hn, preList_eq_flatMap, getQuantizersOld, filter_flatMap']
+  apply List.flatMap_congr
+  intro l hl
+  obtain ⟨h1, h2, h3, h4⟩ := hflat l hl
+  cases l with
+  | mk a sub =>
+    simp only [Layer.sub, Layer.attrs] at h1 h2 h3 h4
+    simp [Layer.pre, Attrs.held, h1, h2, h3, h4, preList, Layer.attrs]
+
+/-- regression witness of the former finding C07-getq-activation: a QDense-like layer
+    (`quantizers = [kernel, bias]`, `get_quantizers()` the same list, a knob-bearing activation
+    quantizer): the activation quantizer was not returned, now it is — each object once -/
+theorem C07_get_quantizers_activation_fixed_witness :
     let k : QObj := ⟨0, .std, true, ⟨.py 1, false, false⟩⟩
     let b : QObj := ⟨1, .std, true, ⟨.py 1, false, false⟩⟩
     let a : QObj := ⟨2, .std, true, ⟨.py 1, false, false⟩⟩
-    let layers : List Layer := [⟨some [k, b], none, [a]⟩]
-    a.hasKnob = true ∧ (∃ l ∈ layers, a ∈ l.all) ∧ a ∉ getQuantizers layers ∧
-    (getQuantizers layers).map QObj.tag = [0, 1] := by
-  simp [getQuantizers, layerQuantizers, QObj.hasKnob, Layer.all, Layer.held, List.filter]
+    let layers : List Layer := [.mk ⟨some [k, b], none, some [k, b], some a, none⟩ []]
+    (getQuantizersOld layers).map QObj.tag = [0, 1] ∧
+    (getQuantizers layers).map QObj.tag = [0, 1, 2] ∧ a ∈ getQuantizers layers := by
+  simp [getQuantizersOld, Layer.attrs, getQuantizers, addLayers, addLayer, Attrs.held, addQ,
+    QObj.hasKnob, List.filter]
+
+/-- regression witness of the former finding C07-getq-rnn-cell: a QSimpleRNN-like layer (no
+    `quantizers` attribute, `get_quantizers()` = the cell's list, a cell holding the list and a
+    knob-bearing activation): nothing was returned, now all four objects are -/
+theorem C07_get_quantizers_cell_fixed_witness :
+    let k : QObj := ⟨0, .std, true, ⟨.py 1, false, false⟩⟩
+    let r : QObj := ⟨1, .std, true, ⟨.py 1, false, false⟩⟩
+    let b : QObj := ⟨2, .noKnob, false, ⟨.py 0, false, false⟩⟩
+    let a : QObj := ⟨3, .std, true, ⟨.py 1, false, false⟩⟩
+    let cell : Layer := .mk ⟨some [k, r, b], none, none, some a, none⟩ []
+    let layers : List Layer := [.mk ⟨none, none, some [k, r, b], some a, none⟩ [cell]]
+    getQuantizersOld layers = [] ∧ (getQuantizers layers).map QObj.tag = [0, 1, 3] := by
+  simp [getQuantizersOld, Layer.attrs, getQuantizers, addLayers, addLayer, Attrs.held, addQ,
+    QObj.hasKnob]
+
+/-- regression witness of the former finding C07-getq-nested-model: a model holding a nested model
+    (whose QActivation holds a knob-bearing quantizer) and a QActivation: only the outer quantizer
+    was returned, now both are, in layer order -/
+theorem C07_get_quantizers_nested_fixed_witness :
+    let i : QObj := ⟨0, .std, true, ⟨.py 1, false, false⟩⟩
+    let o : QObj := ⟨1, .std, true, ⟨.py 1, false, false⟩⟩
+    let inner : Layer := .mk ⟨none, none, none, none, none⟩ [.mk ⟨none, some i, none, none, none⟩ []]
+    let layers : List Layer := [inner, .mk ⟨none, some o, none, none, none⟩ []]
+    (getQuantizersOld layers).map QObj.tag = [1] ∧ (getQuantizers layers).map QObj.tag = [0, 1] := by
+  simp [getQuantizersOld, Layer.attrs, getQuantizers, addLayers, addLayer, Attrs.held, addQ,
+    QObj.hasKnob, List.filter]
 
 end QKV.Props.C07
